@@ -33,6 +33,9 @@ DECIDED = [
     "ORDER-1 XMLWriter.write_file renders before it opens the file",
     "LOOP-1 the reader does not carry parsed state from one sibling element to the next",
     "ORD-3 (XML half) parse_cardinality(str(c)) == c for every normal-form cardinality c",
+    "ENC-1 the XML parser is built without an encoding override (the reader honours the encoding the file declares)",
+    "ENUM-1 DType members render as their plain name under str() (the writer renders every attribute with str(val))",
+    "READ-1 (shared with C02) the XML reader only constructs: no finalize / merge / clean on what it read",
     "CSV-1 from_csv removes the list brackets only when to_csv's opening and closing bracket are both present",
     "RET-1 (shared with C05) the dtype converters return normal forms: what is written as text is what the reader converts back",
 ]
@@ -212,6 +215,39 @@ def run(prog, rep):
 
     # --------------------------------------------------------------- ORDER-1
     compute_before_open(prog, rep, [wf], "ORDER-1")
+
+    # ---------------------------------------------------------------- READ-1
+    from .c02 import reader_constructs_only
+    reader_constructs_only(prog, rep, [m for _, m in sorted(reader.methods.items())], "READ-1")
+
+    # ----------------------------------------------------------------- ENC-1
+    rep.rule("ENC-1", "every ET.XMLParser(...) construction in tools.xmlparser has no encoding= argument: lxml then decodes the text with the "
+                      "encoding declared by the document itself")
+    from .c16 import xml_parser_options
+    xml_parser_options(prog, rep, "ENC-1", ("encoding",))
+
+    # ---------------------------------------------------------------- ENUM-1
+    rep.rule("ENUM-1", "dtypes.DType mixes in str and defines __str__ returning self.name (or self.value, which equals the name for every "
+                       "member): XMLWriter.save_element renders the dtype with str(val), and since Python 3.11 a mixed-in Enum without "
+                       "__str__ renders as 'DType.int'")
+    dt = prog.cls("DType")
+    if dt is None:
+        raise AnalysisError("dtypes.DType vanished")
+    sm = dt.methods.get("__str__")
+    bases = [unparse(b).split(".")[-1] for b in dt.node.bases]
+    good = "StrEnum" in bases          # enum.StrEnum renders as the value by definition
+    detail = "DType(%s) defines no __str__" % ", ".join(bases)
+    if sm is not None:
+        rep.saw_function(sm)
+        rets = [n for n in walk_no_nested(sm.node) if isinstance(n, ast.Return) and n.value is not None]
+        texts = [unparse(n.value) for n in rets]
+        me0 = sm.params[0]
+        good = good or bool(rets) and all(t in ("%s.name" % me0, "%s.value" % me0, "str(%s.value)" % me0, "str(%s.name)" % me0) for t in texts)
+        detail = "returns %s" % texts
+    rep.check(good, "ENUM-1", "DType.__str__ returns the member name", detail,
+              "DType.__str__ %s: str(DType.int) is no longer 'int', and the XML writer stores what str() gives" % detail,
+              sm.where if sm is not None else "odml/dtypes.py",
+              witness="Property(dtype=odml.DType.int) saved as XML has <type>DType.int</type> and reloads as a string Property")
 
     # ---------------------------------------------------------------- LOOP-1
     loop_carried_state(prog, rep, [pt], "LOOP-1")
